@@ -87,6 +87,16 @@ void unit_composite() {
         (void)s(brhs, bx);
     }
 
+    // make_block_solver on a scalar user matrix (C17 / C13: the block adapter must only ever see sorted rows)
+    {
+        typedef amgcl::make_block_solver<
+            amgcl::amg<BB, amgcl::runtime::coarsening::wrapper, amgcl::runtime::relaxation::wrapper>,
+            amgcl::runtime::solver::wrapper<BB> > MBS;
+        boost::property_tree::ptree prm;
+        MBS s(A, prm);
+        (void)s(rhs, x);
+    }
+
     // adapters
     {
         boost::property_tree::ptree prm;
